@@ -2,7 +2,12 @@ import CoxeterVerif.Driver.Proto
 
 namespace OpsC09
 
-/-- driver ops of C09. `none` = unknown op. -/
+/-- driver ops of C09. `none` = unknown op.
+
+C09 needs no op of its own: the correspondence part of `harness/c09.py` re-uses the ops of the
+models whose covariance is proved (`cp.measures` of C01, `poly.measures` / `polytri.triangulate`
+of C02, `polygon.measures` of C04), running each on the data of x and of g(x); the property oracle
+is a metamorphic relation on the implementation itself and needs no model. -/
 def run (α : Type) [Scalar α] [Codec α] (op : String) (c : Ctx) : Option (Rd String) :=
   match op with
   | _ => none
